@@ -11,8 +11,9 @@ from mcv.engine import core
 from mcv.engine import findings as findings_mod
 from mcv.engine.core import Report
 
-EVIDENCE_DIR = os.path.join(core.VERIF, "evidence")
-REPLAY_DIR = os.path.join(core.VERIF, "replays")
+# (overridable so that exploratory runs against a patched worktree -- VERIF_REPO -- do not overwrite the evidence)
+EVIDENCE_DIR = os.environ.get("VERIF_EVIDENCE_DIR") or os.path.join(core.VERIF, "evidence")
+REPLAY_DIR = os.environ.get("VERIF_REPLAY_DIR") or os.path.join(core.VERIF, "replays")
 
 ALL_IDS = ["C%02d" % i for i in range(1, 21)]
 
